@@ -110,7 +110,24 @@ fn eval_inner(line: &str) -> String {
         ["default"] => bits(KindSet::default()),
         ["len", a] => set(a).len().to_string(),
         ["empty", a] => (set(a).is_empty() as u8).to_string(),
-        ["iter", a] => kinds_str(set(a).iter()),
+        ["iter", a] => {
+            // the other ways of consuming the iterator (nth, skip, step_by, last, count, rev,
+            // nth_back, rfold, both ends) see the same members; len() is exact at every step
+            let s = set(a);
+            let mut ok = styles_agree(&|| s.iter(), &|k| kidx(k))
+                && styles_agree(&|| s.into_iter(), &|k| kidx(k))
+                && styles_agree(&|| (&s).into_iter(), &|k| kidx(k))
+                && styles_agree_back(&|| s.iter(), &|k| kidx(k));
+            let mut it = s.iter();
+            let mut left = s.len();
+            ok &= it.len() == left;
+            while it.next().is_some() {
+                left -= 1;
+                ok &= it.len() == left && it.size_hint() == (left, Some(left));
+            }
+            ok &= it.next().is_none() && it.next_back().is_none();
+            format!("{}{}", kinds_str(s.iter()), if ok { "" } else { " ITERATOR-STYLES-DISAGREE" })
+        }
         ["intoiter", a] => kinds_str(set(a).into_iter()),
         ["refiter", a] => kinds_str((&set(a)).into_iter()),
         ["iterrev", a] => kinds_str(set(a).iter().rev()),
